@@ -194,6 +194,14 @@ func genCase(rng *rand.Rand, variant string, progs [][]call, style int) hx.Case 
 // dfs enumerates every schedule of progs with at most `bound` preemptions (a switch away from a
 // goroutine that could still run and is not blocked), re-executing the prefix for every node.
 func dfs(variant string, progs [][]call, bound int, emit func(hx.Case), limit *int) {
+	// iterative deepening on the number of preemptions: all schedules with 0, then exactly 1, then
+	// exactly 2, ... preemptions, so that the limit cuts off the least likely schedules first
+	for b := 0; b <= bound; b++ {
+		dfsExact(variant, progs, b, emit, limit)
+	}
+}
+
+func dfsExact(variant string, progs [][]call, bound int, emit func(hx.Case), limit *int) {
 	var rec func(prefix []int, last int, used int)
 	rec = func(prefix []int, last int, used int) {
 		if *limit <= 0 {
@@ -211,6 +219,9 @@ func dfs(variant string, progs [][]call, bound int, emit func(hx.Case), limit *i
 				d.do("gs probe")
 			}
 			d.g.s.Kill()
+			if used != bound {
+				return // counted in an earlier round
+			}
 			*limit--
 			emit(hx.Case{Domain: true, Nontrivial: true, Lines: d.lines, Tags: []string{"dfs"}})
 			return
